@@ -32,6 +32,10 @@ pub struct RrCase {
     pub initial_peers: usize,
     pub msgs: Vec<MsgCase>,
     pub ops: Vec<Op>,
+    /// bit j set = peer #j announces a present-but-empty Identity (as libzmq REQ / DEALER /
+    /// ROUTER sockets do by default): still a peer of its own in the rotation
+    #[serde(default)]
+    pub empty_identity: u8,
 }
 
 struct PeerRt {
@@ -87,7 +91,8 @@ pub fn rr_outcome(c: &RrCase) -> Outcome {
             macro_rules! new_peer {
                 () => {{
                     let l = sim.link();
-                    l.raw_handshake(kind.a_compatible_peer(), None);
+                    let empty = (c.empty_identity >> (peers.len() % 8)) & 1 == 1;
+                    l.raw_handshake(kind.a_compatible_peer(), if empty { Some(&[]) } else { None });
                     let a = sim.attach(s, &l);
                     peers.push(PeerRt { link: l, attach: a, joined_at: None, answered: 0 });
                 }};
@@ -368,7 +373,7 @@ pub fn gen_rr(s: &mut Src<'_>, max_exp: usize) -> RrCase {
         };
         ops.push(op);
     }
-    RrCase { kind, initial_peers, msgs, ops }
+    RrCase { kind, initial_peers, msgs, ops, empty_identity: if s.chance(1, 3) { s.next() as u8 } else { 0 } }
 }
 
 pub fn run(ctx: &Ctx) -> (Report, PropertyMeta) {
@@ -387,7 +392,8 @@ pub fn run(ctx: &Ctx) -> (Report, PropertyMeta) {
                 ops.push(Op::Send(i % 2));
                 ops.push(Op::Settle);
             }
-            cases.push(RrCase { kind, initial_peers: n, msgs: vec![m(&[5]), m(&[0, 300])], ops });
+            cases.push(RrCase { kind, initial_peers: n, msgs: vec![m(&[5]), m(&[0, 300])], ops: ops.clone(), empty_identity: 0 });
+            cases.push(RrCase { kind, initial_peers: n, msgs: vec![m(&[5]), m(&[0, 300])], ops, empty_identity: 0xFF });
             for join_after in 0..=(n + 1) {
                 let mut ops = vec![];
                 for i in 0..(3 * n + 4) {
@@ -398,7 +404,7 @@ pub fn run(ctx: &Ctx) -> (Report, PropertyMeta) {
                     ops.push(Op::Send(0));
                     ops.push(Op::Settle);
                 }
-                cases.push(RrCase { kind, initial_peers: n, msgs: vec![m(&[1, 70_000])], ops });
+                cases.push(RrCase { kind, initial_peers: n, msgs: vec![m(&[1, 70_000])], ops, empty_identity: 0 });
             }
             // stalled send, join during the stall, release
             if n >= 1 {
@@ -423,7 +429,7 @@ pub fn run(ctx: &Ctx) -> (Report, PropertyMeta) {
                     Op::Send(0),
                     Op::Settle,
                 ];
-                cases.push(RrCase { kind, initial_peers: n, msgs: vec![m(&[200_000])], ops });
+                cases.push(RrCase { kind, initial_peers: n, msgs: vec![m(&[200_000])], ops, empty_identity: 0 });
             }
         }
     }
